@@ -251,7 +251,72 @@ def r3(F, rep):
     rep.add("C02-R3", "parse_group|registers", pg.loc(), "parse_group() registers the group it returns", bool(reg), func=pg.q)
 
 
+def r4(F, rep):
+    rep.rule("C02-R4", "fitted frames: calc_required_properties() computes the centre of geometry before the roto-translation "
+                       "that uses it and recomputes centre of geometry and of mass after it (the cached centres refer to the "
+                       "frame the components see); in calc_apply_roto_translation() every translation applied to the group is "
+                       "also applied, with the same vector, to its fitting group, both are rotated by the same matrix, and the "
+                       "unrotated copy used by the fit gradients is taken after centring and before rotating")
+    f = F.one("colvarmodule::atom_group::calc_required_properties")
+    roto = [c for c in X.calls(f) if X.callee_name(c) == "calc_apply_roto_translation"]
+    if not roto:
+        rep.add("C02-R4", "roto|present", f.loc(), "calc_required_properties() never applies the roto-translation", False, func=f.q)
+        return
+    roto = roto[0]
+    own = lambda c: c["k"] == "CXXMemberCallExpr" and (X.receiver(c) is None or X.strip(X.receiver(c))["k"] == "CXXThisExpr")
+    for nm in ("calc_center_of_geometry", "calc_center_of_mass"):
+        cs = [c for c in X.calls(f) if X.callee_name(c) == nm and own(c)]
+        before = [c for c in cs if f.cfg.dominates(c, roto)]
+        after = [c for c in cs if f.cfg.can_reach(roto, c) and not f.cfg.can_reach(c, roto) and
+                 set(f.cfg.real_guards(c)) == set(f.cfg.real_guards(roto))]
+        if nm == "calc_center_of_geometry":
+            rep.add("C02-R4", "order|%s|before" % nm, f.loc(roto), "%s() runs before the roto-translation (%d call)" % (nm, len(before)), bool(before),
+                    detail="the group would be centred with the centre of the previous step", func=f.q)
+        rep.add("C02-R4", "order|%s|after" % nm, f.loc(roto), "%s() is recomputed after the roto-translation under the same flags (%d call)" % (nm, len(after)),
+                bool(after), detail="components would read a centre that refers to the laboratory frame", func=f.q)
+    g = F.one("colvarmodule::atom_group::calc_apply_roto_translation")
+    tr = [c for c in X.calls(g) if X.callee_name(c) == "apply_translation"]
+    mine = [c for c in tr if own(c)]
+    fits = [c for c in tr if not own(c) and "fitting_group" in X.key(X.receiver(c), g)]
+    for c in mine:
+        arg = X.key(X.call_args(c)[0], g)
+        peer = [d for d in fits if X.key(X.call_args(d)[0], g) == arg and g.cfg.can_reach(c, d) and
+                set(g.cfg.real_guards(c)) <= set(g.cfg.real_guards(d))]
+        ok = False
+        for d in peer:
+            extra = set(g.cfg.real_guards(d)) - set(g.cfg.real_guards(c))
+            if all("fitting_group" in X.key(g.nodes[cid], g) and pol for cid, pol in extra):
+                ok = True
+        rep.add("C02-R4", "translate|%s" % X.re_strip(arg)[:40], g.loc(c), "apply_translation(%s) on the group is mirrored on the fitting group (under `if (fitting_group)` only)" % X.text(X.call_args(c)[0], g)[:40],
+                ok, detail="the fitting group would stay in the laboratory frame: the optimal rotation is computed from misplaced atoms", func=g.q)
+    if len(mine) < 2:
+        raise AnalysisBroken("calc_apply_roto_translation: translations not found")
+    # rotation applied to both with the same matrix
+    rotw = []
+    from .rules_c10 import lvalue_writes as LW
+    for w, t in LW(g):
+        tt = X.strip(t)
+        if tt["k"] == "MemberExpr" and tt.get("q") == "colvarmodule::atom::pos" and w.get("op") == "=":
+            r = X.kids(w)[1] if w["k"] == "BinaryOperator" else X.call_args(w)[1]
+            k = X.re_strip(X.key(r, g))
+            if "rot" in k:
+                loop = [a for a in g.ancestors(w) if a["k"] == "ForStmt"]
+                over = X.re_strip(X.key(loop[0]["c"][1], g)) if loop and loop[0]["c"][1] is not None else ""
+                rotw.append((w, k.split(",")[0], "fitting_group" in over))
+    mats = {m for _, m, _ in rotw}
+    rep.add("C02-R4", "rotate|both", g.loc(rotw[0][0]) if rotw else g.loc(), "positions rotated in %d loop(s), over the group and over the fitting group, with one matrix: %s" % (
+        len(rotw), sorted(mats)), len(rotw) == 2 and len(mats) == 1 and {x for _, _, x in rotw} == {True, False}, func=g.q)
+    # pos_unrotated saved after centring and before rotating
+    save = [w for w, t in LW(g) if "pos_unrotated" in X.key(t, g) and w.get("op") == "="]
+    cen = [c for c in mine if any("f_ag_center" in X.key(g.nodes[cid], g) and "origin" not in X.key(g.nodes[cid], g) for cid, _ in g.cfg.real_guards(c))]
+    ok = bool(save) and bool(rotw) and bool(cen) and all(g.cfg.can_reach(cen[0], s) and not g.cfg.can_reach(s, cen[0]) for s in save) and \
+        all(g.cfg.can_reach(s, rotw[0][0]) and not g.cfg.can_reach(rotw[0][0], s) for s in save)
+    rep.add("C02-R4", "unrotated-copy", g.loc(save[0]) if save else g.loc(), "pos_unrotated is copied after centring and before rotating", ok,
+            detail="fit gradients would be evaluated in the wrong frame", func=g.q)
+
+
 def run(F, rep, tier):
     r1(F, rep)
     r2(F, rep)
     r3(F, rep)
+    r4(F, rep)
